@@ -108,6 +108,75 @@ func TestVerifBoundedDERSigBuild(t *testing.T) {
 `},
 }
 
+func init() {
+	// buildASN1PublicKey / (*PublicKey).ASN1Bytes: SubjectPublicKeyInfo { {id-ecPublicKey, secp256k1}, BIT STRING (uncompressed point) }
+	boundedHarnesses["der_spki_build"] = boundedHarness{
+		pkgDir: "secec",
+		bound:  "public keys k*G for k in 1..64, 2^i for i in 0..255 and N-1..N-16 (336 keys)",
+		src: `package secec
+
+import (
+	"bytes"
+	"fmt"
+	"math/big"
+	"os"
+	"testing"
+
+	"gitlab.com/yawning/secp256k1-voi"
+)
+
+func TestVerifBoundedSPKIBuild(t *testing.T) {
+	out, err := os.Create(os.Getenv("VERIF_BOUNDED_OUT"))
+	if err != nil {
+		t.Fatal(err)
+	}
+	defer out.Close()
+	n, _ := new(big.Int).SetString("fffffffffffffffffffffffffffffffebaaedce6af48a03bbfd25e8cd0364141", 16)
+	var ks []*big.Int
+	for i := int64(1); i <= 64; i++ {
+		ks = append(ks, big.NewInt(i))
+	}
+	for i := uint(0); i < 256; i++ {
+		ks = append(ks, new(big.Int).Lsh(big.NewInt(1), i))
+	}
+	for i := int64(1); i <= 16; i++ {
+		ks = append(ks, new(big.Int).Sub(n, big.NewInt(i)))
+	}
+	// RFC 5480 / SEC 1 C.3 prefix for an uncompressed secp256k1 key: SEQUENCE(86) { SEQUENCE(16) { OID 1.2.840.10045.2.1, OID 1.3.132.0.10 }, BIT STRING(66) 00 || point }
+	prefix := []byte{0x30, 0x56, 0x30, 0x10, 0x06, 0x07, 0x2a, 0x86, 0x48, 0xce, 0x3d, 0x02, 0x01, 0x06, 0x05, 0x2b, 0x81, 0x04, 0x00, 0x0a, 0x03, 0x42, 0x00}
+	for _, kv := range ks {
+		var b [32]byte
+		kv.FillBytes(b[:])
+		sc, err := secp256k1.NewScalarFromCanonicalBytes(&b)
+		if err != nil {
+			panic(err)
+		}
+		priv, err := NewPrivateKeyFromScalar(sc)
+		if err != nil {
+			panic(err)
+		}
+		pub := priv.PublicKey()
+		got := pub.ASN1Bytes()
+		want := append(append([]byte{}, prefix...), pub.Bytes()...)
+		ok, why := bytes.Equal(got, want), ""
+		if !ok {
+			why = fmt.Sprintf("got %x want %x", got, want)
+		} else {
+			back, err := ParseASN1PublicKey(got)
+			if err != nil || !back.Equal(pub) {
+				ok, why = false, fmt.Sprintf("does not parse back: %v", err)
+			}
+		}
+		st := "ok"
+		if !ok {
+			st = "FAIL"
+		}
+		fmt.Fprintf(out, "%s k=%x %s\n", st, kv, why)
+	}
+}
+`}
+}
+
 type boundedResult struct {
 	Harness  string   `json:"harness"`
 	Function string   `json:"function"`
